@@ -1,18 +1,18 @@
 SPECIFICATION Spec
 CONSTANTS
   NS = 1
-  NF = 2
-  MAXFR = 4
-  VALS = {0, 1}
-  THR = 0
-  PATTERN = TRUE
-  OM0 = 0
+  NF = 5
+  MAXFR = 3
+  VALS = {2, 3}
+  THR = 1
+  PATTERN = FALSE
+  OM0 = 1
   OMSTEP = 1
-  OMSEQ <- SeqUpZeroDown
+  OMSEQ <- NoSeq
   VSHIFT = 0
   MAXFIX = FALSE
-  NANV <- Neg1
-  EMITSTEPS = TRUE
+  NANV = 3
+  EMITSTEPS = FALSE
 INVARIANT NoBad
 INVARIANT ShapeOK
 INVARIANT LinkOK
